@@ -5,10 +5,11 @@ use crate::runner::*;
 use crate::src::Src;
 use crate::syntax::{lex, OpTable, Recog, Tok, TK};
 use serde_json::{json, Value as J};
+use std::time::Duration;
 
 pub static PROP: Prop = Prop {
     id: "C05",
-    rule: "cases: (a) exhaustive: every sequence of length <= L over a 22-symbol alphabet of token classes {number, string, strings spelling `,` and `:`, bool, name (a name before `(` is a function name), ( ) [ ] { } , ; ? : prefix-only `!`, infix-only `*`, prefix+infix `-`, postfix `++`, `not`, word infix `in`}, rendered with single blanks (L = 5 quick, 6 thorough); (b) corruptions: a valid program from the flat generator with 1-3 edits at token level (delete / insert / replace / swap a token, truncate) or at character level (delete a character, insert a structural character, unbalance a quote, splice `e` `.` into a number). Oracle (one-directional): if a lenient, nondeterministic recogniser of the documented grammar (optional `;` after any statement, optional trailing comma in list and map, any number of postfix operators, `not` as prefix or as negation marker) finds NO reading, parse_expression must return Err; a lexical error (unterminated string, malformed number) counts as no reading. Nothing is asserted when the recogniser accepts. Non-trivial: the recogniser rejects the input and it is a near-miss (some single-token deletion is accepted, or it came from a valid program by <= 3 edits); distinct by token-class sequence.",
+    rule: "cases: (a) exhaustive: every sequence of length <= L over a 22-symbol alphabet of token classes {number, string, strings spelling `,` and `:`, bool, name (a name before `(` is a function name), ( ) [ ] { } , ; ? : prefix-only `!`, infix-only `*`, prefix+infix `-`, postfix `++`, `not`, word infix `in`}, rendered with single blanks (L = 5 quick, 6 thorough); (b) corruptions: a valid program from the flat generator with 1-3 edits at token level (delete / insert / replace / swap a token, truncate) or at character level (delete a character, insert a structural character, unbalance a quote, splice `e` `.` into a number); (c) number-shaped text (1-34 digits, optional fraction, then junk from the number alphabet: e9, E5, e+3, .5, .., .1.2 ...) embedded in a program; (d) in fresh child processes: word operators registered at run time (over, pct, xor ...), the same short token sequences around them parsed before and after the registration, each judged against the operator table in force. Oracle (one-directional): if a lenient, nondeterministic recogniser of the documented grammar (optional `;` after any statement, optional trailing comma in list and map, any number of postfix operators, `not` as prefix or as negation marker) finds NO reading, parse_expression must return Err; a lexical error (unterminated string, malformed number) counts as no reading. Nothing is asserted when the recogniser accepts. Non-trivial: the recogniser rejects the input and it is a near-miss (some single-token deletion is accepted, or it came from a valid program by <= 3 edits); distinct by token-class sequence.",
     assumptions: &[
         "the recogniser reads the grammar as leniently as the statement allows, so a rejection means no reading exists; a trailing comma in a call is NOT among the stated leniencies and is treated as malformed",
         "inputs with more than 62 tokens are outside the recogniser's range and assert nothing",
@@ -182,7 +183,154 @@ fn fixed(env: &Env, st: &mut Stats) -> CaseResult {
 
 const STRUCT_CHARS: [&str; 16] = ["(", ")", "[", "]", "{", "}", ",", ";", "?", ":", "'", "\"", "e", ".", "+", "*"];
 
-fn case(src: &mut Src, st: &mut Stats, _env: &Env) -> CaseResult {
+/// number-like text: digits, at most a few dots, then junk from the number alphabet
+fn gen_number_like(src: &mut Src) -> String {
+    let int = 1 + src.pick(34);
+    let mut s = String::new();
+    for i in 0..int {
+        s.push((b'0' + src.range(if i == 0 { 1 } else { 0 }, 9) as u8) as char);
+    }
+    if src.chance(2, 3) {
+        s.push('.');
+        let frac = src.pick(14);
+        for _ in 0..frac {
+            s.push((b'0' + src.range(0, 9) as u8) as char);
+        }
+    }
+    let junk = ["", "e9", "e", "E5", "e+3", "e-2", ".5", "..", ".1.2", "e1e1", "E", "e+", "."];
+    s.push_str(*src.choose(&junk));
+    s
+}
+
+/// child: {"pre_texts", "ops", "texts"} -> {"pre": [bool], "post": [bool]} (parse accepted?)
+pub fn worker() -> i32 {
+    use std::io::Read;
+    install_panic_hook();
+    let mut s = String::new();
+    std::io::stdin().read_to_string(&mut s).ok();
+    let doc: J = serde_json::from_str(&s).unwrap_or(json!({}));
+    let run = |texts: &J| -> Vec<J> {
+        texts
+            .as_array()
+            .cloned()
+            .unwrap_or_default()
+            .iter()
+            .map(|t| match parse_ok(t.as_str().unwrap_or("")) {
+                Ok(Ok(())) => json!(true),
+                Ok(Err(_)) => json!(false),
+                Err(p) => json!(format!("PANIC {}", p)),
+            })
+            .collect()
+    };
+    let pre = run(&doc["pre_texts"]);
+    for op in doc["ops"].as_array().cloned().unwrap_or_default() {
+        crate::props::register_op(&op, 0);
+    }
+    let post = run(&doc["texts"]);
+    println!("{}", json!({"pre": pre, "post": post}));
+    0
+}
+
+/// operator tables extended at run time: the same texts are parsed before and after the
+/// registration, each judged against the table in force
+fn history_case(src: &mut Src, st: &mut Stats, env: &Env) -> CaseResult {
+    let builtin = OpTable::builtin();
+    let mut tab = builtin.clone();
+    let nops = 1 + src.pick(3);
+    let mut ops = vec![];
+    let mut names = vec![];
+    for i in 0..nops {
+        let kind = *src.choose(&["infix", "prefix", "postfix"]);
+        let name = *src.choose(&["over", "pct", "xor", "mod", "nand", "sq"]);
+        if names.contains(&name.to_string()) {
+            continue;
+        }
+        // keep postfix spellings disjoint from prefix/infix ones
+        match kind {
+            "infix" => {
+                tab.infix.insert(name.to_string(), (100 + i as i64, false));
+            }
+            "prefix" => {
+                tab.prefix.insert(name.to_string());
+            }
+            _ => {
+                tab.postfix.insert(name.to_string());
+            }
+        }
+        names.push(name.to_string());
+        ops.push(json!({"kind": kind, "name": name, "prec": 100 + i as i64, "right": false}));
+    }
+    // short sequences around the new words: "an operator without its operand"
+    let mut texts = vec![];
+    for _ in 0..10 {
+        let n = 1 + src.pick(4);
+        let mut parts: Vec<String> = vec![];
+        for _ in 0..n {
+            if src.chance(1, 2) {
+                parts.push(src.choose(&names).clone());
+            } else {
+                parts.push(ALPHABET[src.pick(ALPHABET.len())].1.to_string());
+            }
+        }
+        texts.push(parts.join(" "));
+    }
+    let scenario = json!({"pre_texts": texts, "ops": ops, "texts": texts});
+    let out = run_child(&env.exe, &["worker", "c05"], &scenario.to_string(), Duration::from_secs(30));
+    st.add_extra("child_processes", 1);
+    let doc: J = match (&out.end, serde_json::from_str::<J>(out.stdout.trim())) {
+        (ChildEnd::Exit(0), Ok(d)) => d,
+        _ => return Err(Failure::new("child:crash", format!("child ended with {:?}; stderr {}", out.end, out.stderr), scenario)),
+    };
+    for (phase, table) in [("pre", &builtin), ("post", &tab)] {
+        for (i, text) in texts.iter().enumerate() {
+            st.eval();
+            st.hist(&format!("history:{}", phase));
+            let accepted = match &doc[phase][i] {
+                J::Bool(b) => *b,
+                other => return Err(Failure::new("panic", format!("{:?}: {}", text, other), scenario)),
+            };
+            let (toks, e) = lex(text, table);
+            let reading = e.is_none() && Recog::accepts(&toks, table);
+            if !reading {
+                st.nontrivial(&format!("history:{}:{}", phase, class_key(&toks)));
+            }
+            if accepted && !reading {
+                return Err(Failure::new(
+                    if phase == "post" { "accepted-malformed:after-registration" } else { "accepted-malformed" },
+                    format!(
+                        "{:?} has no reading under the operator table in force ({} registering {}), but parse_expression accepted it",
+                        text,
+                        if phase == "post" { "after" } else { "before" },
+                        json!(ops)
+                    ),
+                    json!({"history": scenario, "text": text, "phase": phase}),
+                ));
+            }
+        }
+    }
+    Ok(())
+}
+
+fn case(src: &mut Src, st: &mut Stats, env: &Env) -> CaseResult {
+    match src.weighted(&[40, 6, 1]) {
+        1 => {
+            st.eval();
+            let tab = OpTable::builtin();
+            let num = gen_number_like(src);
+            let text = match src.pick(4) {
+                0 => num.clone(),
+                1 => format!("x + {}", num),
+                2 => format!("[{}]", num),
+                _ => format!("f({} , 1)", num),
+            };
+            st.hist("corruption:number-shape");
+            st.sample(|| json!({"text": text}));
+            let (toks, e) = lex(&text, &tab);
+            return judge(&text, if e.is_some() { None } else { Some(&toks) }, &tab, true, st);
+        }
+        2 => return history_case(src, st, env),
+        _ => {}
+    }
     st.eval();
     let tab = OpTable::builtin();
     let mut cfg = SynCfg::new(&tab);
